@@ -279,6 +279,11 @@ def add_dvs(draw, spec, max_dv=3):
             lo = draw(st.sampled_from([-2.0, 0.0, 0.5, 10.0]))
             w = draw(st.sampled_from([0.5, 1.0, 3.0, 100.0]))
             spec['nodes'][nm] = {'k': 'dv', 'bounds': [lo, lo+w]}
+        if i > 0 and draw(ints(0, 3)) == 0:
+            # a second design-variable node with the same displayed name and the same domain as the first one (e.g. a
+            # 'span' under the wing and under the tail): two different nodes, two different variables
+            first = spec['nodes']['dv0']
+            spec['nodes'][nm] = dict({k_: v_ for k_, v_ in first.items() if k_ != 'label'}, label='dv0')
         spec['edges'].append([draw(st.sampled_from(gens)), nm])
     return spec
 
@@ -499,6 +504,8 @@ def labels(spec):
                     out.append('repeated')
     if any(nd['k'] == 'dv' for nd in spec['nodes'].values()):
         out.append('dv')
+    if any(nd.get('label') for nd in spec['nodes'].values()):
+        out.append('dv_same_name')
     for con in spec.get('cons', []):
         out.append('con_'+con['type'])
         if 'placement' in con:
